@@ -66,6 +66,7 @@ def scenarios():
     add("bad_namestart", {"optsOk": 0}, opts=["-n100"])
     add("out_dir_missing", {"outOpens": 0}, out="nodir/out.ttf")
     add("out_is_dir", {"outOpens": 0}, out="adir")
+    add("out_is_empty_dir", {"outOpens": 0}, out="adir/build.v2")     # (an empty directory could be removed by unlink-like calls)
     add("name_overflow", {"outWrites": 0}, opts=["-n32767"])
     add("errfile_unwritable", {"errFileOpens": 0}, errfile="nodir/err.txt")
     # an error file that is one of the run's own files must be refused, not written over them
@@ -124,6 +125,9 @@ def sha(path):
 def snapshot(d):
     out = {}
     for root, dirs, files in os.walk(d):
+        for dn in dirs:
+            # directories too: one that existed before the run must still be there (an empty one can be removed by remove())
+            out[os.path.relpath(os.path.join(root, dn), d) + "/"] = ("dir", "")
         for fn in files:
             p = os.path.join(root, fn)
             try:
